@@ -33,7 +33,7 @@ CHECKS = {
    "An Err from the encoder is never a C04 violation (C12/C19 assert that representable values are not refused)."),
  "C05": ("exploration",
    "property-based testing + exhaustive single-cut enumeration: invariants over the exchange history of two handshakes",
-   "Client and server handshakes (or one side replaced by a digest-less original-handshake peer written in the harness) are driven against each other under generated partitions and interleavings with trailing application data; invariants: exactly 3073 bytes emitted per side starting with 3, no completion before 3073 peer bytes, trailing data handed back once and unmodified. Every single cut position 0..3113 per direction is enumerated exhaustively.",
+   "Client and server handshakes (or one side replaced by a digest-less original-handshake peer written in the harness) are driven against each other under generated partitions and interleavings with 0..200000 bytes of trailing application data; invariants: exactly 3073 bytes emitted per side starting with 3, no completion before 3073 peer bytes, trailing data handed back once and unmodified. Every single cut position 0..3113 per direction is enumerated exhaustively.",
    "DESIGN.md §4 C05",
    "After Completed the driver stops calling process_bytes (documented). Random fill comes from the seeded hook; the oracle holds for any fill."),
  "C06": ("exploration",
@@ -60,7 +60,7 @@ CHECKS = {
    "stateful model-based testing: ModelClient + metamorphic twin runs + bounded-exhaustive enumeration of short histories",
    "Generated histories over 20 operation kinds (application calls and server messages with outstanding / answered / unknown transaction ids, status codes, media on active or other streams) run against a real ClientSession; ModelClient judges each clause of the statement; operations that must not change anything are removed in a twin run whose other observations must be identical. All sequences of length <= 4 / <= 5 over a 14-letter alphabet from four starting states are enumerated.",
    "DESIGN.md §4 C10",
-   "Model from the statement; don't-cares listed in DESIGN.md. An Err from handle_input ends a history; generation is shaped so that most histories stay alive."),
+   "Model from the statement; don't-cares listed in DESIGN.md. An Err from handle_input ends a history only once the peer has announced an acknowledgement window (a due Acknowledgement is lost with the Err); before that the history goes on and the failed message must not have changed the state (DESIGN.md 9.3-11)."),
  "C11": ("exploration",
    "exhaustive enumeration of digest offsets (728 x schemes x roles) with generated fill, oracle = independent SHA-256/HMAC implementation of the FP9 rules",
    "The hook steers the library's random fill so every own-packet digest offset 0..727 is produced for both roles, and the harness builds peer packets with a valid digest at every offset of both schemes; RefHmac (own SHA-256/HMAC, self-tested against FIPS/RFC vectors) verifies digest and response signature; digest-less packets must be echoed exactly. Exhaustive in the offset dimension, random in the remaining bytes.",
@@ -78,7 +78,7 @@ CHECKS = {
    "RefMsg trusted. Control bodies longer than their layout are not judged."),
  "C14": ("exploration",
    "structure-aware adversarial generation, each case decoded in an isolated worker process on a 2 MiB stack with a counting allocator and watchdog",
-   "Nests of array/object/ECMA headers to depth 100000 (len/5 at the size cap), count fields up to 2^32-1, strings announcing more than is present, floods of small values up to 1 MiB (quick) / 16 MiB (thorough), mutated valid encodings; the worker must survive and return, with peak heap <= 192 x len + 128 KiB. Process death is attributed to the announced case and confirmed in a fresh worker.",
+   "Nests of array/object/ECMA headers to depth 100000 (len/5 at the size cap), count fields up to 2^32-1, strings announcing more than is present, floods of small values and runs of one unit (every single byte value, stray end markers, empty containers with huge counts, random units) up to 1 MiB (quick) / 16 MiB (thorough), mutated valid encodings; the worker must survive and return, with peak heap <= 192 x len + 128 KiB. Process death is attributed to the announced case and confirmed in a fresh worker.",
    "DESIGN.md §4 C14",
    "2 MiB = Rust's default thread stack. Termination by 120 s watchdog, three orders of magnitude above the normal cost."),
  "C15": ("exploration",
@@ -90,12 +90,12 @@ CHECKS = {
    "differential testing against a per-chunk-stream reference reassembler over generated chunk interleavings; known finding classified by signature",
    "2..4 multi-chunk messages on distinct chunk streams, reference-encoded and merged by a generated interleaving; expected deliveries come from RefChunkDec. The library reassembles into one shared buffer (known finding D11): failures whose first divergence is at/after the first overlap point are reported as KNOWN-FINDING; overlap-free orders and everything before the first overlap must still be correct and are judged as violations otherwise.",
    "DESIGN.md §4 C16",
-   "Until the library reassembles per chunk stream, the property is only enforced outside the recorded finding; the evidence reports how many cases were set aside."),
+   "Until the library reassembles per chunk stream, the property is only enforced outside the recorded finding; the evidence reports how many cases were set aside. Delivery timing (each message out in the call that supplies its last chunk) is judged up to the first overlap point."),
  "C17": ("exploration",
    "model-based testing: ModelAck counter model driven by the layout of generated inbound streams; W = 1..64 enumerated",
    "For both session kinds, every W in 1..=64 and a pool of larger windows, generated valid inbound streams with the window message at a generated position and re-announcements, and call sizes from {0,1,W-1,W,W+1,2W,random}: the model predicts in which calls an Acknowledgement appears and its value; conservation and 'fewer than W outstanding' are asserted after every call.",
    "DESIGN.md §4 C17",
-   "W sampled up to 2^24 (W near 2^32 needs ~4 GiB per case). A re-announcement replaces W and does not reset the count."),
+   "Windows above 20 MB (incl. 2^31-1 .. 2^32-1) are only checked for the absence of acknowledgements (filling them needs gigabytes per case). A re-announcement replaces W and does not reset the count. Calls answered with Err still count their bytes; a case ends at an Err in a call that owed an Acknowledgement."),
  "C18": ("fault_enumeration",
    "fault enumeration (all 2^k drop subsets, k <= 8) over session histories with a scripted session clock; oracle = strict reference decoder + RefMsg",
    "Histories from the C09/C10 generators plus media-heavy variants are run with the session clock shifted across 2^24 and 2^32 ms by the hook; every packet returned by every call is recorded; the packets minus every drop subset must form a well-formed chunk stream of well-formed messages on the expected message streams with control messages on stream 0 / chunk stream 2, and the droppable mark only where asked.",
@@ -103,7 +103,7 @@ CHECKS = {
    "Uptime is simulated by moving start_time into the past; the ms computation and u32 truncation are the library's own. An Err from handle_input ends a history."),
  "C19": ("exploration",
    "boundary-value generation, each case in an isolated worker with allocation cap and watchdog; oracle = refused with Err, or accepted and working (C01 / C02 oracles)",
-   "Chunk sizes, windows, bandwidths, version / tcUrl / app strings, payload lengths and AMF0 string lengths around every protocol limit through serializer, deserializer, both session configurations and the AMF0 encoder. Out-of-protocol values must produce an Err from some call and leave the object working; accepted values must yield a working round-trip or client/server mini session. A non-terminating call hits the allocation cap or the watchdog in the worker.",
+   "Chunk sizes, windows, bandwidths, version / tcUrl / app strings, payload lengths and AMF0 string lengths around every protocol limit through serializer, deserializer, both session configurations and the AMF0 encoder. Out-of-protocol values must produce an Err from some call and leave the object working; accepted values must yield a working round-trip or client/server mini session under three deliveries (large pieces, byte by byte, pieces of 7). A non-terminating call hits the allocation cap or the watchdog in the worker.",
    "DESIGN.md §4 C19",
    "Termination observed by allocation cap (3 GiB) and a 120 s watchdog; the slowest accepted case takes under 2 s."),
  "C20": ("exploration",
@@ -115,6 +115,8 @@ CHECKS = {
 
 NOT_YET = {}
 
+FUZZ = {'C01': "chunk_roundtrip (byte-level, structured decoding of the fuzzer's bytes)", 'C02': "pt_interop (pass-through: the fuzzer's bytes drive the same proptest strategy and oracle)", 'C03': 'deser, message, server, client, handshake (byte-level)', 'C04': 'pt_amf0_roundtrip (pass-through)', 'C05': 'pt_handshake (pass-through)', 'C06': 'foreign_stream (byte-level, structured decoding)', 'C08': 'pt_drop_subsets (pass-through)', 'C09': 'pt_model_server (pass-through)', 'C10': 'pt_model_client (pass-through)', 'C12': 'amf0_diff (byte-level)', 'C13': 'pt_msg_roundtrip (pass-through)', 'C14': 'amf0_decode (byte-level, peak-heap bound on a 2 MiB stack)', 'C15': 'split (byte-level)', 'C16': 'pt_interleave (pass-through)', 'C17': 'pt_ack (pass-through)', 'C18': 'pt_session_emit (pass-through)'}
+
 def main():
     props = [json.loads(l) for l in open(os.path.join(ROOT, "properties.jsonl"))]
     checks = []
@@ -123,6 +125,8 @@ def main():
         pid = p["id"]
         if pid in CHECKS:
             cat, tech, text, ref, note = CHECKS[pid]
+            if pid in FUZZ:
+                tech += "; thorough tier adds coverage-guided fuzzing (libFuzzer via cargo-fuzz, same oracle inside the target): " + FUZZ[pid]
             checks.append({
                 "property_id": pid,
                 "quick_cmd": f"./run.sh check {pid} quick",
@@ -151,6 +155,12 @@ def main():
             {"name": "vkit", "path": "/verif/harness",
              "serves_properties": sorted(CHECKS.keys()),
              "kind_free_text": "Rust crate: proptest-driven generators with shrinking, independent reference models (chunk codec, AMF0, RTMP message bodies, SHA-256/HMAC, session state machines) as oracles, bounded-exhaustive enumerations, child-process isolation with allocation cap and watchdog, replay files"},
+            {"name": "vkit-fuzz", "path": "/verif/fuzz",
+             "serves_properties": sorted(FUZZ.keys()),
+             "kind_free_text": "cargo-fuzz crate: twenty libFuzzer targets that are three-line shims around vkit::targets (ten byte-level, ten pass-through targets driving the properties' own proptest strategies and oracles); run by the thorough tier through ./run.sh, artifacts become replay files (.bin); committed seed / regression corpus in /verif/corpus is also replayed by the quick tier"},
+            {"name": "proptest-vendored", "path": "/verif/vendor/proptest",
+             "serves_properties": sorted(CHECKS.keys()),
+             "kind_free_text": "proptest 1.11.0 from the offline registry cache with a patch of a few lines to its pass-through generator (vendor/README.md); the harness depends on it by path"},
         ],
         "checks": checks,
         "not_applicable": not_applicable,
